@@ -75,13 +75,9 @@ def deltranRL (k : Nat) (p : Option Vec) : List A → List Nat → List A × Lis
 end
 
 mutual
-/-- ACCTRAN with resolution (a tip is intersected with its parent but never resolved) -/
+/-- ACCTRAN with resolution (a tip is neither intersected with its parent — fix a20daad — nor resolved) -/
 def acctranR (k : Nat) (p : Option Vec) : A → List Nat → A × List Nat
-  | .node s [], st =>
-    let s' := match p with
-      | none => s
-      | some pv => inter k s pv
-    (.node s' [], st)
+  | .node s [], st => (.node s [], st)
   | .node s (c :: cs), st =>
     let s' := match p with
       | none => s
@@ -193,7 +189,7 @@ end
 
 mutual
 def acctranRM (k : Nat) (p : Option (List Vec)) : AM → List Nat → AM × List Nat
-  | .node ss [], st => (.node (interSites k ss p) [], st)
+  | .node ss [], st => (.node ss [], st)
   | .node ss (c :: cs), st =>
     let r := resolveSites k (interSites k ss p) st
     let rk := acctranRML k (some r.1) (c :: cs) r.2
